@@ -19,6 +19,7 @@ func init() {
 	engine.Register("V-INPUT-PURE", ruleVInputPure)
 	engine.Register("V-BOOL", ruleVBool)
 	engine.Register("V-TWO-CURRENT", ruleVTwoCurrent)
+	engine.Register("N-PRESENCE", ruleNPresence)
 }
 
 // queryFamily: functions whose receiver type is a query, comparator or validator type
@@ -1165,4 +1166,83 @@ func condText(v ssa.Value) string {
 		return "call " + x.Call.String()
 	}
 	return v.String()
+}
+
+// ---------------------------------------------------------------------------------------------
+// N-PRESENCE: a member that is present with the value null is still a member. Evaluation code
+// decides presence of a key in a document object only with the comma-ok form of the lookup; the
+// value of a plain lookup is never compared with nil (that conflates `{"a":null}` with `{}` and
+// makes a name list differ from the concatenation of its single names).
+func ruleNPresence(c *engine.Context) *report.Rule {
+	r := report.NewRule("N-PRESENCE", "presence of a member in a document object is decided by the comma-ok lookup, never by comparing the looked-up value with nil", 3)
+	p := c.P
+	isDocMap := func(t types.Type) bool {
+		m, ok := t.Underlying().(*types.Map)
+		if !ok {
+			return false
+		}
+		it, ok := m.Elem().Underlying().(*types.Interface)
+		return ok && it.NumMethods() == 0
+	}
+	for _, fn := range p.Funcs {
+		if fn.Blocks == nil || !p.Eval[fn] {
+			continue
+		}
+		n := 0
+		for _, b := range fn.Blocks {
+			for _, ins := range b.Instrs {
+				lk, ok := ins.(*ssa.Lookup)
+				if !ok || !isDocMap(lk.X.Type()) {
+					continue
+				}
+				n++
+				r.Instances++
+				if lk.CommaOk {
+					r.Oblige(true)
+					r.Sample("%s: lookup #%d uses comma-ok", load.FuncName(fn), n)
+					continue
+				}
+				// plain lookup: the value must not be compared with nil
+				bad := nilComparisonOf(lk, map[ssa.Value]bool{})
+				r.Oblige(bad == nil)
+				r.Sample("%s: plain lookup #%d, value compared with nil: %v", load.FuncName(fn), n, bad != nil)
+				if bad != nil {
+					r.Violation(fmt.Sprintf("%s: lookup #%d decides presence by nil comparison", load.FuncName(fn), n), p.RelPos(bad.Pos()),
+						"%s looks a key up in a document object without the comma-ok form and compares the value with nil: a member that is present with the value null is treated as absent (a name list then differs from its single names, and the member cannot be addressed)", load.FuncName(fn))
+				}
+			}
+		}
+	}
+	return r
+}
+
+// nilComparisonOf finds a comparison of v (through phis and interface copies) with the nil constant.
+func nilComparisonOf(v ssa.Value, seen map[ssa.Value]bool) ssa.Instruction {
+	if seen[v] || v.Referrers() == nil {
+		return nil
+	}
+	seen[v] = true
+	for _, ref := range *v.Referrers() {
+		switch x := ref.(type) {
+		case *ssa.BinOp:
+			if x.Op.String() == "==" || x.Op.String() == "!=" {
+				other := x.X
+				if other == v {
+					other = x.Y
+				}
+				if cst, ok := other.(*ssa.Const); ok && cst.IsNil() {
+					return x
+				}
+			}
+		case *ssa.Phi:
+			if ins := nilComparisonOf(x, seen); ins != nil {
+				return ins
+			}
+		case *ssa.ChangeInterface:
+			if ins := nilComparisonOf(x, seen); ins != nil {
+				return ins
+			}
+		}
+	}
+	return nil
 }
